@@ -231,6 +231,12 @@ def run_tlc(ctx, family, module, cfg, workers=None, env=None, timeout=600, extra
             if "TEMPORAL" not in r.props:
                 r.props.append("TEMPORAL")
             continue
+        m = re.match(r"Error: Temporal property (\S+) was violated", line)
+        if m:
+            cur = None
+            if m.group(1) not in r.props:
+                r.props.append(m.group(1))
+            continue
         if line.startswith("Error: "):
             if "The behavior up to this point is" in line or "The following behavior constitutes" in line:
                 continue
